@@ -443,7 +443,7 @@ class C05(Prop):
     required = ["C05.v2_prefix_incomplete", "C05.v1_bytes_prefix_incomplete", "C05.v1_str_prefix_incomplete", "C05.auto_prefix_incomplete", "C05.flags", "C05.streaming_v2", "C05.streaming_v1", "C05.v1_str_prefix_incomplete'", "C05.v1_bytes_prefix_incomplete_iff", "C05.streaming_v1_str"]
     rule = ("every cut 0..len-1 of generated accepted headers (ASCII v1 lines, v2 headers) through the version's entry points and the auto-detecting one; "
             "non-trivial = distinct (header shape, cut position class)"
-            " Also: headers declaring 65519..65535 bytes cut at the last 40 positions; accepted lines of every length 98..107; is_complete = !is_incomplete checked on every kind of result (rejected, over-long, garbage, corrupted) through every entry point.")
+            " Also: headers declaring 65519..65535 bytes cut at the last 40 positions; accepted lines of every length 98..107; every value of the length field's high byte cut at 12..17 bytes; is_complete = !is_incomplete checked on every kind of result (rejected, over-long, garbage, corrupted) through every entry point.")
 
     def gen(self, tier, rng):
         ops = []
@@ -482,6 +482,21 @@ class C05(Prop):
             self._meta.append(("flags", b"", 0))
             ops.append("auto " + o.split(" ", 1)[1])
             self._meta.append(("flags", b"", 0))
+        # every value of the length field's high byte (and a few low bytes), cut inside the fixed
+        # part: a short-input gate that looks at a byte of the length field as if it were a control
+        # byte goes wrong only for particular values of that byte. No random choices.
+        for hi in range(256):
+            for lo in ((0x00, 0xF7, 0xFF) if hi in (0x00, 0x03, 0x40, 0x7F, 0x80, 0xFF) else (0x00,)):
+                length = hi * 256 + lo
+                for afp in (0x00, 0x11):
+                    if length < G.FAM_SIZE[afp >> 4]:
+                        continue
+                    h = G.header(0x21, afp, length, bytes([hi ^ 0x5A]) * length)
+                    for c in (12, 13, 14, 15, 16, 17, len(h) - 1):
+                        if 0 <= c < len(h):
+                            for e in ("v2", "auto"):
+                                ops.append("%s %s" % (e, G.spec(h[:c])))
+                                self._meta.append(("v2", h, c))
         # which verdict these inputs get is not C05's business (only that the two flags are complementary):
         # they are not compared with the model unless they also occur as a prefix of an accepted header
         prefix_ops = set(o for o, m in zip(ops, self._meta) if m[0] != "flags")
